@@ -128,7 +128,25 @@ def frombufs():
                 except BaseException as e:  # noqa
                     exc = 1
                 emit({"e": "frombuf", "fn": fn, "fmt": code, "itemsize": src.itemsize, "shape": list(mv.shape), "ndim": mv.ndim,
-                      "vals": vals, "exc": exc, "out": res})
+                      "vals": vals, "exc": exc, "out": res, "contig": 1})
+                # non-contiguous views of the same memory: every other row, and reversed rows (the view's own elements are `sel`)
+                if rows >= 2:
+                    for sl, rowidx in ((slice(None, None, 2), list(range(0, rows, 2))), (slice(None, None, -1), list(range(rows - 1, -1, -1)))):
+                        try:
+                            sv = mv[sl]
+                        except (TypeError, ValueError, NotImplementedError):
+                            continue
+                        sel = []
+                        for ri in rowidx:
+                            sel += vals[ri * cols:(ri + 1) * cols]
+                        exc, res = 0, []
+                        try:
+                            r = f(sv)
+                            res = [[ival(c) for c in comps(r[i])] for i in range(len(r))]
+                        except BaseException as e:  # noqa
+                            exc = 1
+                        emit({"e": "frombuf", "fn": fn, "fmt": code, "itemsize": src.itemsize, "shape": list(sv.shape), "ndim": sv.ndim,
+                              "vals": sel, "exc": exc, "out": res, "contig": 1 if sv.c_contiguous else 0})
 
 
 # ---- FixedArray2D ---------------------------------------------------------------------------------------
